@@ -163,7 +163,9 @@ func parseEndpointFunc(arg ast.Expr, pkg *packages.Package) (body *ast.BlockStmt
 			panic(fmt.Sprintf("unsupported identifier %s for %s", obj, ident))
 		}
 	} else if fnLitt, ok := arg.(*ast.FuncLit); ok {
-		return fnLitt.Body, fmt.Sprintf("Anonymous%d", arg.Pos()), pkg
+		// name the literal after its offset in the file : token.Pos also depends
+		// on the other files loaded in the same file set
+		return fnLitt.Body, fmt.Sprintf("Anonymous%d", pkg.Fset.Position(arg.Pos()).Offset), pkg
 	}
 
 	panic(fmt.Sprintf("unsupported handler function %s", arg))
